@@ -1,6 +1,6 @@
 (** C11 - PUB/XPUB deliver a message to a subscriber iff a subscription is a prefix.  Property theorems only. *)
 From ZV Require Import Base.Bytes Base.Res Spec.PrefixMultiset Model.Codec Model.World Proofs.PubSubProofs.
-From ZV Require Proofs.PubSubWire.
+From ZV Require Proofs.CodecEnc Proofs.PubSubWire Proofs.XPubWire.
 
 Theorem C11_gen_opcodes :
   Gen.pub_op_sub = 1 /\ Gen.pub_op_unsub = 0 /\ Gen.xpub_op_sub = 1 /\ Gen.xpub_op_unsub = 0 /\
@@ -57,3 +57,17 @@ Theorem C11_pubsub_over_the_wire : forall k j h chunks c m,
   [BSendOk; BWire j (if matches (w_subs (PubSubWire.exec (world0 SUB) (OAttach k None :: h))) (hd [] m) then encode_frames m else [])].
 Proof. exact PubSubWire.pubsub_over_the_wire. Qed.
 Print Assumptions C11_pubsub_over_the_wire.
+
+(** the same for XPUB, where the subscription messages are consumed by the application's recv calls (and handed
+    to it, in order) *)
+Theorem C11_xpub_over_the_wire : forall k j h chunks c msgs m,
+  Forall PubSubWire.sub_op h ->
+  get_conn k (w_conns (PubSubWire.exec (world0 SUB) (OAttach k None :: h))) = Some c ->
+  concat chunks = c_wire c ->
+  c_wire c = concat (map encode_frames msgs) -> Forall CodecEnc.wf_msg msgs ->
+  m <> [] ->
+  World.run (world0 XPUB) (OAttach j None :: map (OFeed j) chunks ++ repeat ORecv (S (length msgs)) ++ [OSend m; OWire j]) =
+  BAtt j None :: map (BRecv None) msgs ++
+  [BRecvPending; BSendOk; BWire j (if matches (w_subs (PubSubWire.exec (world0 SUB) (OAttach k None :: h))) (hd [] m) then encode_frames m else [])].
+Proof. exact XPubWire.xpub_over_the_wire. Qed.
+Print Assumptions C11_xpub_over_the_wire.
